@@ -43,13 +43,14 @@ SETUP = [
     "R = P.new_space('R', formula='lambda j: None'); R.new_cells('rc', formula='lambda: i * 10 + j')",
     "O = m.new_space('O'); O.ax = A.x; O.sp = A; O.new_cells('oc', formula='lambda: ax() + 100')",
     "O.new_cells('ot', formula='lambda: sp.T.tc() + 200'); O.new_cells('orr', formula='lambda: sp.r + 300')",
+    "O.new_cells('orr2', formula='lambda: sp.r + 301')",      # a second reader of A.r by attribute path
     "D = m.new_space('D', formula='lambda j: {\"base\": A}', refs={'A': A})",
     "O.pp = P; O.new_cells('op', formula='lambda: pp[1].c() + 400')",
 ]
 
 EVALS = [
     py("m.A.x()", False), py("m.Sub.x()", False), py("m.O.oc()", False), py("m.O.ot()", False),
-    py("m.O.orr()", False), py("m.O.op()", False),
+    py("m.O.orr()", False), py("m.O.orr2()", False), py("m.O.op()", False),
     py("m.P[1].c()", False), py("m.P[1].Q.qc()", False), py("m.D[1].x()", False), py("m.P[2]", False),
     py("m.P[1].R[2].rc()", False),
 ]
@@ -61,8 +62,9 @@ EDITS = [
     py("m.A.new_cells('z', formula='lambda: 9')"), py("m.D.clear_items()"), py("del m.D"),
     py("del m.O.ax"), py("m.A.x.rename('x2')"), py("m.clear_all()"), py("m.P.clear_at(1)"),
     py("m.P.R.rc.formula = 'lambda: i * 10 + j + 1'"), py("del m.P.R"),
+    py("m.O.orr.clear_all()"),      # a partial clear: one of several values computed from an object deleted later
 ]
-PROBE_EXPRS = ["m.X.tc()", "m.SubSub.x()", "m.A.x()", "m.Sub.x()", "m.O.oc()", "m.O.ot()", "m.O.orr()", "m.O.op()", "m.P[1].c()",
+PROBE_EXPRS = ["m.X.tc()", "m.SubSub.x()", "m.A.x()", "m.Sub.x()", "m.O.oc()", "m.O.ot()", "m.O.orr()", "m.O.orr2()", "m.O.op()", "m.P[1].c()",
                "m.P[1].Q.qc()", "m.D[1].x()", "m.P[1].R[2].rc()"]
 
 
@@ -268,7 +270,9 @@ ALPHABET = EDITS + EVALS
 
 
 def work_items(tier, seed):
-    return [{"first": op} for op in ALPHABET]
+    # cold: every history of <= depth ops; warm: every evaluation done first, then every history of 2 (3) more ops
+    # starting with an edit
+    return [{"first": op} for op in ALPHABET] + [{"first": op, "warm": True} for op in EDITS]
 
 
 def run_item(item, tier):
@@ -281,7 +285,11 @@ def run_item(item, tier):
     depth = DEPTH[tier]
     if tier == "thorough" and item["first"].get("edit", True):
         depth -= 1      # thorough: depth 4 below the evaluation ops, depth 3 below the edits
-    res = bfs.explore(rh, lambda h, i: ALPHABET, depth, prefix=[item["first"]], merge=False)
+    prefix = [item["first"]]
+    if item.get("warm"):
+        prefix = EVALS + prefix
+        depth = len(prefix) + (1 if tier == "quick" else 2)
+    res = bfs.explore(rh, lambda h, i: ALPHABET, depth, prefix=prefix, merge=False)
     res.samples = [{"history": h} for h in res.samples[:1]]
     out = res.as_item_result()
     out["counts"]["dead_handles_probed"] = dead[0]
